@@ -1,4 +1,4 @@
-import LanceModel.C40.MergeSpecLemmas
+import LanceModel.C40.FuelLemmas
 /-
 C40 — Arrow helper transformations preserve values.
 
@@ -138,6 +138,19 @@ theorem merge_spec (llen : Nat) (lnulls : Option Nulls) (ln : List String) (lc :
         ((logical (.struct llen lnulls ln lc)).getD i .null) ((logical (.struct rlen rnulls rn rc)).getD i .null)) :=
   logical_mergeBatch llen lnulls ln lc rlen rnulls rn rc m hwl hwr hul hur h
 
+/-! ### fuel: the recursion depth of the model's `merge` / `merge_with_schema` is bounded by the nesting depth -/
+
+/-- with fuel above the nesting depth of the left batch, `mergeStruct` returns the same result for every larger fuel
+    (the driver's 64 is enough for depth ≤ 63; the theorems above do not depend on the fuel chosen) -/
+theorem merge_fuel_suffices (l r : Arr) (f f' : Nat) (h : depth l + 1 ≤ f) (hf : f ≤ f') :
+    mergeStruct f' l r = mergeStruct f l r :=
+  mergeStruct_fuel f l r f' h hf
+
+/-- the same for `mergeWS` (two model calls per nesting level: fuel 64 is enough for depth ≤ 31) -/
+theorem merge_with_schema_fuel_suffices (l r : Arr) (fn : List String) (ft : List Ty) (f f' : Nat)
+    (h : 2 * depth l + 1 ≤ f) (hf : f ≤ f') : mergeWS f' l r fn ft = mergeWS f l r fn ft :=
+  (mergeWS_fuel_aux f).1 l r fn ft f' h hf
+
 /-! ### lib.rs: project_by_schema -/
 
 /-- `RecordBatchExt::project_by_schema`: every row of the result is the row-wise projection `projectRow` (requested fields
@@ -196,6 +209,7 @@ example : (projectBatch exL ["s"] [.struct ["a"] [.int]]).isOk = true := by
 example : wf exL = true := by decide
 example : ∃ m, mergeStruct 64 exL exR = .ok m := ⟨_, rfl⟩
 example : ∃ m, mergeBatch exL exR = .ok m := ⟨_, rfl⟩
+example : depth exL + 1 ≤ 64 ∧ 2 * depth exL + 1 ≤ 64 := by decide
 example : wf exR = true ∧ uniq exL = true ∧ uniq exR = true := by decide
 example : ∃ m, mergeWS 64 exL exR ["s"] [.struct ["b", "a"] [.int, .int]] = .ok m := ⟨_, rfl⟩
 
